@@ -533,6 +533,7 @@ func checkCmd(args []string) {
 	os.WriteFile(filepath.Join(outRoot, "evidence", pl.Property+".json"), b, 0o644)
 	fmt.Printf("%s %s: %d obligations, %d discharged, %d violations, %.1fs\n", pl.Property, *tier, total, discharged, violations, time.Since(start).Seconds())
 	if violations > 0 {
+		os.RemoveAll(work) // os.Exit skips the deferred removal
 		os.Exit(1)
 	}
 }
